@@ -51,8 +51,10 @@ META = {
         "inside the mutation; each override performs the built-in operation "
         "it overrides with index/count arguments passed through; event "
         "factory purity; self-attribute closure; copy protocol; the C items-"
-        "event retry loop re-reads object state. NOT decided: index/slice "
-        "normalisation arithmetic on values."),
+        "event retry loop re-reads object state; the integer position reported "
+        "by __setitem__/__delitem__/pop/insert and the capture of the removed "
+        "item, as decision tables over the orderings of the index against 0, "
+        "len and -len. NOT decided: slice normalisation arithmetic."),
     "C06": dict(level="other", trusted_base=_TB_PY, explanation=_PARTIAL +
         "As C05 for TraitDict, plus purity of the dict event factory, "
         "membership typestate of validated keys (`added` keys known absent, "
@@ -102,7 +104,7 @@ META = {
         "write); read-only write guard; prefix list re-sorted after append; "
         "strict/private class rules. Not decided: resolution for every "
         "concrete name and hierarchy."
-        " Also decided: _add_class_trait stores into a class table only after a membership test found the name absent (a subclass's own definition is never replaced)."),
+        " Also decided: the status of the dictionary store that caches a resolved prefix trait is not discarded; _add_class_trait stores into a class table only after a membership test found the name absent (a subclass's own definition is never replaced)."),
     "C14": dict(level="other", trusted_base=_TB_C + _TB_PY, explanation=_PARTIAL +
         "Decided: lifecycle sibling agreement (has_traits_init, __setstate__, "
         "clone_traits) including both halves of the legacy-listener set-up; "
@@ -110,7 +112,8 @@ META = {
         "last; container copy protocol agreement with element-wise deep copy; "
         "item-by-item agreement of CTrait.__getstate__/__setstate__ (field, "
         "function table, format; restored flag bits not masked); __getstate__ "
-        "table membership and __setstate__ index bounds. Not decided: value "
+        "table membership and __setstate__ index bounds; the tp_dictoffset "
+        "field only receives NULL or a dictionary. Not decided: value "
         "equality of copies."),
     "C15": dict(level="other", trusted_base=_TB_PY + ["lark 1.3.1 grammar loader"],
         explanation=_PARTIAL +
@@ -125,7 +128,8 @@ META = {
         "unregistration precedes every registration within one event; remove "
         "flag threaded to every (un)registration; remove path disposes; both "
         "halves of the static-listener set-up run on every construction "
-        "path. Not decided: agreement with observe over histories."),
+        "path; handle_dst is silent only for a link without previous value or "
+        "a dead handler. Not decided: agreement with observe over histories."),
     "C18": dict(level="other", trusted_base=_TB_C, explanation=_PARTIAL +
         "Decided: dispatch-table index bounds; func_index table membership; "
         "GC-protocol exhaustiveness; local reference-ownership typestate "
@@ -135,11 +139,13 @@ META = {
         "never overwritten unreleased); retry loops re-read object state; "
         "error discipline. Not decided: whole-program memory safety, "
         "finalizer re-entrancy."
-        " Also decided: tp_getset setters test for deletion (NULL) first; results of fallible in-file calls are checked before use; SET_ITEM macros only on containers created on the same path; references received through PyErr_Fetch-style out-parameters are balanced."),
+        " Also decided: an int status that user code can make fail is not discarded on the way to a success return; tp_getset setters test for deletion (NULL) first; results of fallible in-file calls are checked before use; SET_ITEM macros only on containers created on the same path; references received through PyErr_Fetch-style out-parameters are balanced."),
     "C19": dict(level="other", trusted_base=_TB_C + _TB_PY, explanation=_PARTIAL +
         "Decided: validate-then-mutate in containers; compute-then-store in "
         "the C getters/setters; try/finally pairing of notification "
-        "suppression; handler containment; undo-log completeness. Not "
+        "suppression; handler containment; undo-log completeness; PyErr_Clear "
+        "only after a test for a specific exception class or at a confirmed "
+        "abandon-this-alternative site. Not "
         "decided: fault injection at every k-th callback (dynamic)."),
     "C20": dict(level="other", trusted_base=_TB_PY, explanation=_PARTIAL +
         "Decided: lock window contains every propagating assignment; the "
